@@ -251,6 +251,33 @@ fn judge_frontends(n: usize, k: usize, kind: Kind, level: f64, seed: u64, case: 
     };
     cmp("ci_true", call(|| proportion::ci_true(c, &bools)).map(|i| Obs::of64(&i)), None, l);
     cmp("ci_if", call(|| proportion::ci_if(c, &ints, |x| *x > 0)).map(|i| Obs::of64(&i)), None, l);
+    // the same data behind user-defined views / iterators that do not announce their length
+    {
+        let lazy = crate::lazy::Lazy(bools.clone());
+        let head = crate::lazy::HeadKnown(ints.clone(), n / 2);
+        cmp("ci_true(view of unknown length)", call(|| proportion::ci_true(c, &lazy)).map(|i| Obs::of64(&i)), None, l);
+        cmp("ci_if(view announcing half its length)", call(|| proportion::ci_if(c, &head, |x| *x > 0)).map(|i| Obs::of64(&i)), None, l);
+        let mut sv = proportion::Stats::default();
+        sv.extend(&lazy);
+        cmp("Stats::extend(view of unknown length)", call(|| sv.ci(c)).map(|i| Obs::of64(&i)), Some((sv.population(), sv.successes())), l);
+        let mut sw = proportion::Stats::default();
+        sw.extend_if(&head, |x| *x > 0);
+        cmp("Stats::extend_if(view announcing half its length)", call(|| sw.ci(c)).map(|i| Obs::of64(&i)), Some((sw.population(), sw.successes())), l);
+        let su: proportion::Stats = crate::lazy::unsized_iter(&bools, 1 + (n + k) % 3).collect();
+        cmp("Stats::from_iter(iterator of unknown length)", call(|| su.ci(c)).map(|i| Obs::of64(&i)), Some((su.population(), su.successes())), l);
+        // a predicate with internal state is still asked once per observation: every observation is counted
+        let calls = std::cell::Cell::new(0u64);
+        let mut st = proportion::Stats::default();
+        st.extend_if(&ints, |x| {
+            calls.set(calls.get() + 1);
+            // pseudo-random answer that depends on the number of calls so far, not only on x
+            (calls.get().wrapping_mul(0x9E3779B97F4A7C15) >> 61) % 2 == 0 || *x > 100
+        });
+        l.eval();
+        if st.population() != n {
+            l.violation("Stats::extend_if|stateful-predicate|miscounts".to_string(), "extend_if with a predicate that has internal state does not count every observation exactly once".to_string(), case(), json!({"input": inp(), "population": st.population(), "observations": n, "predicate_calls": calls.get()}));
+        }
+    }
     let s1: proportion::Stats = bools.iter().copied().collect();
     cmp("Stats::from_iter", call(|| s1.ci(c)).map(|i| Obs::of64(&i)), Some((s1.population(), s1.successes())), l);
     let mut s2 = proportion::Stats::default();
